@@ -332,7 +332,7 @@ pub fn run_c05(tier: &str, seed: u64) -> Report {
             c05_eval(&c, r);
         }
         // edits of the footer segment itself
-        if !fb.is_empty() {
+        if !fb.is_empty() && segs.len() == 4 {
             let base = format!("{}.{}.{}", segs[0], segs[1], segs[2]);
             let mut edits: Vec<(String, Option<String>, &str)> = vec![
                 (base.clone(), f.clone(), "footer-segment-removed"),
@@ -351,7 +351,7 @@ pub fn run_c05(tier: &str, seed: u64) -> Report {
                 let c = C05Case { p, layer, key: key.clone(), built_footer: f.clone(), supplied_footer: sup, ia: ia.map(|s| s.to_string()), token: tok, class: class.into() };
                 c05_eval(&c, r);
             }
-        } else {
+        } else if fb.is_empty() {
             // footer-less token: adding a footer segment with a matching expectation must fail
             let tok = format!("{}.{}", token.trim_end_matches('.'), util::b64(b"added"));
             let c = C05Case { p, layer, key: key.clone(), built_footer: f.clone(), supplied_footer: Some("added".into()), ia: ia.map(|s| s.to_string()), token: tok, class: "footer-segment-added+matching-expectation".into() };
@@ -543,7 +543,7 @@ pub fn run_c06(tier: &str, seed: u64) -> Report {
             }
             if p.is_local() {
                 // same key, nonce, message: nonce||ciphertext must not depend on the assertion, only the tag may
-                let cut = |t: &str| crate::c03::parts(p, t).map(|x| x.payload[..x.payload.len() - p.trailer_len()].to_vec());
+                let cut = |t: &str| crate::c03::parts(p, t).map(|x| x.payload[..x.payload.len().saturating_sub(p.trailer_len())].to_vec());
                 if cut(&t0) != cut(&t1) || cut(&t1) != cut(&t2) {
                     r.violation(format!("C06 ciphertext-depends-on-assertion {}", p.name()), format!("{}: nonce||ciphertext differs between assertions for identical key/nonce/message", p.name()), witness.clone());
                 } else {
